@@ -529,6 +529,23 @@ def c12(tier):
             alt = n.upper() if n.upper() != n else n.lower()
             twins[alt] = SIB_VALID.replace("zulu", "twin" + n.split(".")[0]).replace("RecZulu", "RecTwin")
         inputs.append((label + "+case-twin-siblings", dict(files, **twins), start))
+    # inputs that fail after the start file was entered: the outcome of every later call on the same object must not change
+    from . import gen_invalid
+    A = gen_invalid.schema
+    good = '<xs:complexType name="C"><xs:sequence><xs:element name="a" type="xs:int"/></xs:sequence></xs:complexType>'
+    imp = '<xs:import namespace="http://zv.test/b" schemaLocation="b.xsd"/>'
+    failing = {
+        "dangling-import": ({"a.xsd": A(imp + good)}, "a.xsd"),
+        "malformed-imported-sibling": ({"a.xsd": A(imp + good), "b.xsd": "<xs:schema"}, "a.xsd"),
+        "unresolved-base-after-components": ({"a.xsd": A(good + '<xs:complexType name="D"><xs:complexContent><xs:extension base="t:Nowhere">'
+                                                         '<xs:sequence/></xs:extension></xs:complexContent></xs:complexType>')}, "a.xsd"),
+        "failing-import-of-a-good-file's-import": ({"a.xsd": A(imp + good), "b.xsd": A('<xs:import namespace="http://zv.test/c" schemaLocation="c.xsd"/>' + good, tns="http://zv.test/b")}, "a.xsd"),
+        "wsdl-unknown-message": ({"a.wsdl": gen_invalid.wsdl(types=gen_invalid.GOOD_TYPES, messages=gen_invalid.GOOD_MSG.replace('name="Out"', 'name="Other"'),
+                                                         port=gen_invalid.GOOD_PORT, binding=gen_invalid.GOOD_BIND, service=gen_invalid.GOOD_SVC)}, "a.wsdl"),
+    }
+    for k, (files, start) in failing.items():
+        inputs.append((f"failing:{k}", files, start))
+    rejected_checked = 0
     n_proc = 8 if tier == "quick" else 32
     scratchdir = common.scratch("c12")
     evaluated = 0
@@ -548,7 +565,22 @@ def c12(tier):
             return label, "died", [("process", common.classify_death(first) if "died" in first else "watchdog", None)], 1, 0
         c0 = first["calls"][0]
         if c0["outcome"] != "ok":
-            return label, "rejected", [], 1, 0
+            # an input that is refused must be refused the same way by every further call on the same input object (and in a
+            # fresh process): a call history err, ok, err is as much a dependence on history as differing bytes
+            def oc(call):
+                e = call.get("err") or {}
+                return (call.get("outcome"), e.get("variant"), _norm_msg(e.get("msg")))
+            ref = oc(c0)
+            nexec = 1
+            for job in (dict(base_job, calls=4), dict(base_job, threads=3, calls=3), dict(base_job)):
+                res = _fresh_process_gen(zdrive, job)
+                calls = list(res.get("calls", [])) + [c for t in res.get("threads", []) for c in t.get("calls", [])]
+                for ci, call in enumerate(calls):
+                    nexec += 1
+                    if oc(call) != ref:
+                        recs.append(("repeat-call" if ci else "process", "outcome-changes",
+                                     {"first": list(ref), "later": list(oc(call)), "call_index": ci}))
+            return label, "rejected", recs, nexec, 0
         ref_sha, ref_text = c0["sha"], c0["text"]
         shas = {ref_sha}
         execs = 1
@@ -602,6 +634,9 @@ def c12(tier):
     for label, status, recs, execs, nshas in pool.map(one_input, inputs):
         executions += execs
         if status == "rejected":
+            rejected_checked += 1
+            for across, where, detail in recs:
+                v.violation(f"C12|differs|across={across}|where={where}", {"input": label, "detail": detail})
             continue
         accepted += 1
         evaluated += 1
@@ -619,11 +654,13 @@ def c12(tier):
         "rule": "inputs = every schema/WSDL file under /repo/resources and zeep-lib/test-data that the generator accepts (with their "
                 "sibling .xsd files) + seeded synthetic WSDLs with 2-8 operations, multi-part messages, headers, with/without "
                 "parts=; per input: N fresh processes (fresh hash seeds), 4 threads x 3 repeated read_xml calls on one FilesToRead, "
-                "a call history of length 3, every/8 registration orders of the file set, and the directory-enumerating helper; "
+                "a call history of length 3, every/8 registration orders of the file set, and the directory-enumerating helper; inputs that are "
+                "refused (repository files zeep cannot read, and five hand-made failing sets) get call histories and threads as well and "
+                "must be refused the same way each time; "
                 "oracle = SHA-256 equality with the first output. evaluations = generator executions compared; "
                 "distinct_nontrivial = accepted inputs that are WSDLs (>= 2 operations or parts, where a hash-order dependence "
                 "can show at all)",
-        "inputs_total": len(inputs), "inputs_accepted": accepted, "fresh_processes_per_input": n_proc,
+        "inputs_total": len(inputs), "inputs_accepted": accepted, "refused_inputs_checked_for_stable_outcome": rejected_checked, "fresh_processes_per_input": n_proc,
         "distinct_outputs_seen_per_input": distinct_outputs,
         "inputs_with_more_than_one_output": sorted(k for k, n in distinct_outputs.items() if n > 1),
         "samples": samples,
